@@ -22,6 +22,7 @@ class SpecEval:
         self.skolems = []
         self.guard = 'true'
         self.qvars = {}
+        self.hdr = {}
 
     def sub(self, env=None, state=None, pkg=None):
         e = SpecEval(self.vc, pkg or self.pkg, env if env is not None else self.env, state or self.st, self.old,
@@ -29,6 +30,7 @@ class SpecEval:
         e.depth = self.depth + 1
         e.mode, e.positive, e.ante, e.skolems, e.guard = self.mode, self.positive, list(self.ante), self.skolems, self.guard
         e.qvars = dict(self.qvars)
+        e.hdr = self.hdr
         return e
 
     def nonpos(self, e):
@@ -519,6 +521,19 @@ class SpecEval:
     def b_fixrune(self, args):
         x = self.eval(args[0])
         return V('(fixrune %s)' % x.term, 'Int', 'int32')
+
+    def b_atheader(self, args):
+        """atheader(n, e): the value of e in the state at the header of loop n at the start of the current
+        (for a postcondition: the last) iteration"""
+        if args[0][0] != 'num' or args[0][1] not in self.hdr:
+            self.err('atheader(n, e): unknown loop %r' % (args[0],))
+        envh, sth = self.hdr[args[0][1]]
+        env = dict(envh)
+        env.update(self.qvars)
+        ev = SpecEval(self.vc, self.pkg, env, sth, self.old, self.old_env, self.rec_level, self.bound, self.entry_alloc)
+        ev.qvars = dict(self.qvars)
+        ev.hdr = self.hdr
+        return ev.nonpos(args[1])
 
     def b_isslice(self, args):
         x = self.eval(args[0])
